@@ -538,7 +538,7 @@ def _geom_sampler(symbolic_det=False, generalised=True, sliced=False, steep=Fals
         if symbolic_det:
             # half of the detectors near a pole: there the ground spot can lie beyond the rotation axis (|lat| + theta_S > 90 deg)
             lat = float(rng.uniform(-1.4, 1.4)) if rng.uniform() < 0.5 else float(rng.choice([-1, 1]) * rng.uniform(1.2, 1.56))
-            v["detLat"], v["detLong"] = lat, float(rng.uniform(-3, 3))
+            v["detLat"], v["detLong"] = lat, float(rng.uniform(-6.25, 6.25))  # (east longitudes up to 360 deg and west longitudes are both legal configurations)
         aMin = aH - limb
         Lmax = math.sqrt(r * r - R * R)
         Lmin = r * math.cos(aMin) - math.sqrt(R * R - (r * math.sin(aMin)) ** 2)
@@ -767,7 +767,8 @@ def _replay_spot(m):
     if "detLat" in m:
         cases.append((float(m.get("det_alt", 525.0)), float(m["detLat"]), float(m.get("detLong", 0.0)), float(m.get("max_az", 2 * np.pi))))
     cases += [(525.0, np.radians(80.0), 0.3, 2 * np.pi), (525.0, np.radians(-85.0), -2.0, 2 * np.pi), (33.0, np.radians(-89.0), 1.0, 2 * np.pi),
-              (525.0, np.radians(45.0), 2.5, 2 * np.pi), (2000.0, np.radians(70.0), -0.4, np.pi), (525.0, 0.0, 0.0, 2 * np.pi)]
+              (525.0, np.radians(45.0), 2.5, 2 * np.pi), (2000.0, np.radians(70.0), -0.4, np.pi), (525.0, 0.0, 0.0, 2 * np.pi),
+              (525.0, np.radians(-10.0), np.radians(352.0), 2 * np.pi), (33.0, np.radians(20.0), np.radians(-179.0), 2 * np.pi), (525.0, np.radians(5.0), np.radians(181.0), 2 * np.pi)]
     for alt, lat, lon, az in cases:
         cfg = NssConfig()
         cfg.detector.initial_position.altitude = alt
@@ -784,6 +785,11 @@ def _replay_spot(m):
         d = np.sqrt(((D[:, None] - P) ** 2).sum(axis=0))
         ok = np.isfinite(d) & np.isfinite(g.losPathLen)
         err = np.abs(d - g.losPathLen)
+        rng_bad = np.isfinite(g.longS) & np.isfinite(g.latS) & ((g.longS < 0) | (g.longS > 360) | (g.latS < -90) | (g.latS > 90))
+        if rng_bad.any():
+            k = int(np.argmax(rng_bad))
+            return (f"detector at {alt} km, latitude {np.degrees(lat):.2f} deg, longitude {np.degrees(lon):.2f} deg: {int(rng_bad.sum())} of 20000 ground spots have a latitude outside "
+                    f"[-90, 90] or a longitude outside [0, 360] deg; e.g. event {k}: lat {g.latS[k]:.4f}, long {g.longS[k]:.4f} deg")
         bad = ok & (err > 1e-6 * r)
         if bad.any():
             k = int(np.argmax(np.where(bad, err, 0)))
